@@ -143,3 +143,87 @@ def function_lets(fn):
             if init:
                 out.setdefault(d['name'], init[-1])
     return out
+
+
+def loop_var(f):
+    i0 = f['inner'][0]
+    if i0 and i0.get('kind') == 'DeclStmt':
+        for d in i0.get('inner', []):
+            if d.get('kind') == 'VarDecl':
+                return d['name']
+    if i0 and is_assign(strip(i0)):
+        return render(strip(i0)['inner'][0])
+    return None
+
+
+def invariant_accumulator_reads(f):
+    """[(accumulator text, line)] - lvalues accumulated with += / -= in this loop that do not depend on the loop variable
+    (a scalar, or a fixed element such as particles[0].ax) and are read by another statement of the same loop body, directly
+    or through a local of the body computed from them: that statement sees a partial sum."""
+    iv = loop_var(f)
+    stmts = []
+
+    def collect(node):
+        b = node
+        items = b.get('inner', []) if b.get('kind') == 'CompoundStmt' else [b]
+        for st in items:
+            if st.get('kind') == 'CompoundStmt':
+                collect(st)
+            elif st.get('kind') == 'IfStmt':
+                for br in st['inner'][1:]:
+                    if br.get('kind'):
+                        collect(br)
+                stmts.append(('cond', st['inner'][0]))
+            elif st.get('kind') in ('ForStmt', 'WhileStmt', 'DoStmt'):
+                continue          # inner loops are visited on their own
+            else:
+                stmts.append(('stmt', st))
+    collect(f['inner'][-1])
+    acc = {}
+    for kind, st in stmts:
+        s_ = strip(st)
+        if kind == 'stmt' and is_assign(s_) and s_['opcode'] in ('+=', '-='):
+            lv = render(s_['inner'][0]).replace(' ', '')
+            uses_iv = iv is not None and any(x.get('kind') == 'DeclRefExpr' and x['referencedDecl'].get('name') == iv for x in walk(s_['inner'][0]))
+            if not uses_iv:
+                acc.setdefault(lv, line_of(s_))
+    if not acc:
+        return []
+
+    def reads_acc(e):
+        for x in walk(e):
+            if x.get('kind') in ('MemberExpr', 'DeclRefExpr', 'ArraySubscriptExpr'):
+                t = render(x).replace(' ', '')
+                if t in acc:
+                    return t
+        return None
+    via = {}
+    out = []
+    for kind, st in stmts:
+        if kind == 'cond':
+            continue
+        if st.get('kind') == 'DeclStmt':
+            for d in st.get('inner', []):
+                if d.get('kind') == 'VarDecl' and 'init' in d:
+                    init = [c for c in d.get('inner', []) if c.get('kind') not in ('FullComment',)]
+                    if init:
+                        a = reads_acc(init[-1])
+                        if a is None:
+                            for x in walk(init[-1]):
+                                if x.get('kind') == 'DeclRefExpr' and x['referencedDecl'].get('name') in via:
+                                    a = via[x['referencedDecl']['name']]
+                        if a:
+                            via[d['name']] = a
+            continue
+        s_ = strip(st)
+        if not is_assign(s_):
+            continue
+        lv = render(s_['inner'][0]).replace(' ', '')
+        a = reads_acc(s_['inner'][1])
+        if a is None:
+            for x in walk(s_['inner'][1]):
+                if x.get('kind') == 'DeclRefExpr' and x['referencedDecl'].get('name') in via:
+                    a = via[x['referencedDecl']['name']]
+        if a and a != lv:
+            out.append((a, line_of(s_)))
+    return out
